@@ -151,6 +151,7 @@ type checker struct {
 	probeIdx uint64
 	probeOK  bool
 
+	timeoutNow map[string]uint64 // server -> seq of a TimeoutNow delivered since its last state change
 	snapsPending []snapCheck
 	restoreChecks []restoreCheck
 	ext extState
@@ -206,7 +207,7 @@ func CheckChunks(chunks [][]sim.Ev) *Result {
 		srv: map[string]*server{}, streams: map[instKey]*stream{},
 		leaders: map[uint64]*leaderRec{}, votes: map[string]map[string]uint64{}, checkedG: map[string]bool{},
 		G: map[uint64]*gent{}, rpcs: map[uint64]*rpcRec{}, inflight: map[string]map[uint64]*rpcRec{},
-		calls: map[uint64]*call{}, stored: map[string]bool{}, appliedP: map[string]bool{}, installs: map[string]int{},
+		calls: map[uint64]*call{}, stored: map[string]bool{}, appliedP: map[string]bool{}, installs: map[string]int{}, timeoutNow: map[string]uint64{},
 	}
 	c.ext.init()
 	c.each(func(e *sim.Ev) bool {
